@@ -560,7 +560,7 @@ Proof.
 Qed.
 
 (* ---- Parser.v ---- *)
-Definition strip (p : parser) : parser := mkParser (vt p) (ss (scr p)) (log p) (resizing p).
+Definition strip (p : parser) : parser := mkParser (vt p) (ss (scr p)) (log p) (resizing p) (pend p).
 
 Definition is_sb (o : api_op) : bool := match o with OpSetScrollback _ => true | _ => false end.
 Definition not_sb (o : api_op) : bool := negb (is_sb o).
@@ -569,8 +569,8 @@ Lemma strip_idem p : strip (strip p) = strip p. Proof. reflexivity. Qed.
 
 Lemma strip_process p bs : process (strip p) bs = mapr strip (process p bs).
 Proof.
-  unfold process. cbn [strip vt scr log resizing].
-  destruct (advance (vt p) bs) as [v acts]. rewrite ss_perform_all.
+  unfold process. cbn [strip vt scr log resizing pend]. cbv zeta.
+  destruct (advance (vt p) _) as [v acts]. rewrite ss_perform_all.
   destruct (perform_all (resizing p) (scr p) acts []) as [[s evs]|]; reflexivity.
 Qed.
 
@@ -584,7 +584,7 @@ Qed.
 
 Lemma strip_step_sb p k q : step p (OpSetScrollback k) = Ok q -> strip q = strip p.
 Proof.
-  cbn [step]. intros E. inv E. unfold strip, with_scr. cbn [vt scr log resizing].
+  cbn [step]. intros E. inv E. unfold strip, with_scr. cbn [vt scr log resizing pend].
   now rewrite ss_screen_set_scrollback.
 Qed.
 
